@@ -1,4 +1,5 @@
 import OrbitModel.Proofs.ReplC11
+import OrbitModel.Proofs.GenEqWalk
 import OrbitModel.Proofs.ReplSlots
 import OrbitModel.Proofs.ReplExamples
 import OrbitModel.Proofs.ReplCheck
@@ -89,5 +90,9 @@ theorem slots_are_conserved (net : Nat → Info) (c : Nat) (acts : List Act) :
     ((run net { sem := c } acts).workers = [] →
       (run net { sem := c } acts).sem = c ∧ (run net { sem := c } acts).inProgress = 0) :=
   ⟨(slots_run net c acts).sem, slots_all_free_at_rest net c acts⟩
+
+/-- the replicator of the Go text of this run looks at EVERY hash a fetched entry names (no early exit
+from the loop that queues them), as the model's `fetchOk` does -/
+theorem parent_walk_tied_to_go_text : Gen.parentWalkExits = 0 := gen_parentWalk_complete
 
 end Orbit.C11
